@@ -643,7 +643,7 @@ int main(int argc, char **argv)
             c->inwin = t->inwin;
             if (SCHED == 1 && c->idx == 2 && t->idx == 1 && t->inwin && !sched_done)
                 c->hold = 1;
-            fprintf(LOG, "{\"ev\":\"fork\",\"parent\":%d,\"child\":%d}\n", t->idx, c->idx);
+            fprintf(LOG, "{\"ev\":\"fork\",\"parent\":%d,\"child\":%d,\"pid\":%d}\n", t->idx, c->idx, (int)c->pid);
             if (was_pending) {
                 c->pending_stop = 0;
                 resume(c, 0);
